@@ -46,6 +46,7 @@ Inductive scmd :=
 | SCloseOther (s : nat)    (* screens[s].close(): a close signal whose source is another screen *)
 | SConnect (c k : nat)     (* self.connect(Custom_c, self.callback_k): register_signal_handler(Custom_c, callback_k, data=None) *)
 | SEmit (c : nat) (prio : Z)   (* self.emit(self.create_signal(Custom_c, prio)): a signal of class c whose source is this screen *)
+| SProcess             (* App.get_event_loop().process_signals(): dispatch the most urgent batch now, from inside this callback *)
 | SGetUserInput        (* self.get_user_input(...): blocking *)
 | SSetTypeAhead (b : bool)     (* from now on the user has (b = true) / has not typed ahead: with type-ahead a reader thread
                                   returns at once and its InputReceivedSignal is enqueued before start_input_thread returns *)
@@ -311,6 +312,7 @@ Section Screens.
     | SConnect c k => PApi (ARegHandler (CLS_CUSTOM c) (H_CUSTOM k) self)
     | SEmit c p => PApi (AEnqueue {| sp_cls := CLS_CUSTOM c; sp_prio := p; sp_src := Some self; sp_a := 0; sp_b := false;
                                     sp_data := [] |})
+    | SProcess => PApi (AProcess None)
     | SGetUserInput => get_input_blocking self
     | SSetTypeAhead b => wr (fun u => u <| st_typeahead := b |>)
     | SHandlerAsk h skip => handler_ask self h skip
